@@ -421,8 +421,9 @@ func (f *faultReader) Read(p []byte) (int, error) {
 
 // limitWriter accepts exactly k bytes and then fails every write.
 type limitWriter struct {
-	k      int
-	buf    []byte
+	k         int
+	nonSticky bool // a call that does not fit is refused as a whole (0, error); later calls that fit are accepted again
+	buf       []byte
 	short  bool // report short writes with a nil error... never: io.Writer contract requires an error
 	failed int  // number of calls that returned an error
 }
@@ -436,6 +437,10 @@ func (w *limitWriter) Write(p []byte) (int, error) {
 		w.k -= len(p)
 		w.buf = append(w.buf, p...)
 		return len(p), nil
+	}
+	if w.nonSticky { // a fixed-capacity destination: this piece is refused, smaller ones may still go in
+		w.failed++
+		return 0, errInjectedWrite
 	}
 	n := w.k
 	w.buf = append(w.buf, p[:n]...)
